@@ -17,7 +17,7 @@ const (
 	ClPoolGet   = "pool-get"
 	ClPoolPut   = "pool-put"
 	ClPassThru  = "pure-passthrough" // reads only; result may alias / wrap its arguments (reflect readers)
-	ClUntabled  = "untabled" // conservatively writes everything reachable from pointer-like args
+	ClUntabled  = "untabled"         // conservatively writes everything reachable from pointer-like args
 	ClUserFn    = "user-function"
 	ClLockUnlck = "sync"
 )
@@ -29,69 +29,69 @@ type extSpec struct {
 
 // extTable is keyed by ssa.Function.String().
 var extTable = map[string]extSpec{
-	"reflect.TypeOf":                                  {class: ClPure},
-	"(*reflect.rtype).String":                         {class: ClPure},
-	"(reflect.Type).String":                           {class: ClPure},
-	"reflect.DeepEqual":                               {class: ClPure},
-	"(*regexp.Regexp).MatchString":                    {class: ClPure},
-	"(*regexp.Regexp).FindStringSubmatch":             {class: ClPure},
-	"(*regexp.Regexp).ReplaceAllStringFunc":           {class: ClCallback},
-	"regexp.Compile":                                  {class: ClPure},
-	"regexp.MustCompile":                              {class: ClPure},
-	"(encoding/json.Number).Float64":                  {class: ClPure},
-	"encoding/json.Unmarshal":                         {class: ClWriteArg, write: []int{1}},
-	"strconv.Atoi":                                    {class: ClPure},
-	"strconv.ParseFloat":                              {class: ClPure},
-	"strconv.ParseInt":                                {class: ClPure},
-	"strconv.Quote":                                   {class: ClPure},
-	"(sort.StringSlice).Sort":                         {class: ClWriteArg, write: []int{0}},
-	"(*sort.StringSlice).Sort":                        {class: ClWriteArg, write: []int{0}},
-	"sort.Strings":                                    {class: ClWriteArg, write: []int{0}},
-	"sort.Ints":                                       {class: ClWriteArg, write: []int{0}},
-	"reflect.ValueOf":                                 {class: ClPassThru},
-	"reflect.Indirect":                                {class: ClPassThru},
-	"(reflect.Value).Elem":                            {class: ClPassThru},
-	"(reflect.Value).Index":                           {class: ClPassThru},
-	"(reflect.Value).MapIndex":                        {class: ClPassThru},
-	"(reflect.Value).Field":                           {class: ClPassThru},
-	"(reflect.Value).Interface":                       {class: ClPassThru},
-	"(reflect.Value).Type":                            {class: ClPure},
-	"(reflect.Value).Kind":                            {class: ClPure},
-	"(reflect.Value).IsNil":                           {class: ClPure},
-	"(reflect.Value).IsValid":                         {class: ClPure},
-	"(reflect.Value).IsZero":                          {class: ClPure},
-	"(reflect.Value).Pointer":                         {class: ClPure},
-	"(reflect.Value).UnsafePointer":                   {class: ClPure},
-	"(reflect.Value).Len":                             {class: ClPure},
-	"(reflect.Value).NumField":                        {class: ClPure},
-	"(reflect.Value).String":                          {class: ClPure},
-	"(reflect.Value).Int":                             {class: ClPure},
-	"(reflect.Value).Float":                           {class: ClPure},
-	"(reflect.Value).Bool":                            {class: ClPure},
-	"(reflect.Value).CanInterface":                    {class: ClPure},
-	"(*reflect.rtype).Kind":                           {class: ClPure},
-	"(*reflect.rtype).Name":                           {class: ClPure},
-	"(*reflect.rtype).Elem":                           {class: ClPure},
-	"(*sync.Mutex).Lock":                              {class: ClLockUnlck},
-	"(*sync.Mutex).Unlock":                            {class: ClLockUnlck},
-	"(*sync.Pool).Get":                                {class: ClPoolGet},
-	"(*sync.Pool).Put":                                {class: ClPoolPut},
-	"fmt.Sprintf":                                     {class: ClPure},
-	"fmt.Sprint":                                      {class: ClPure},
-	"fmt.Errorf":                                      {class: ClPure},
-	"errors.New":                                      {class: ClPure},
-	"strings.Contains":                                {class: ClPure},
-	"strings.HasPrefix":                               {class: ClPure},
-	"(*bytes.Buffer).String":                          {class: ClPure},
-	"unicode/utf8.RuneCountInString":                  {class: ClPure},
-	"(error).Error":                                   {class: ClPure},
-	"(*strings.Builder).String":                       {class: ClPure},
-	"(*strings.Builder).WriteString":                  {class: ClWriteArg, write: []int{0}},
-	"(*strings.Builder).WriteByte":                    {class: ClWriteArg, write: []int{0}},
-	"(*strings.Builder).WriteRune":                    {class: ClWriteArg, write: []int{0}},
-	"(*bytes.Buffer).WriteString":                     {class: ClWriteArg, write: []int{0}},
-	"(*bytes.Buffer).WriteByte":                       {class: ClWriteArg, write: []int{0}},
-	"(*bytes.Buffer).Write":                           {class: ClWriteArg, write: []int{0}},
+	"reflect.TypeOf":                        {class: ClPure},
+	"(*reflect.rtype).String":               {class: ClPure},
+	"(reflect.Type).String":                 {class: ClPure},
+	"reflect.DeepEqual":                     {class: ClPure},
+	"(*regexp.Regexp).MatchString":          {class: ClPure},
+	"(*regexp.Regexp).FindStringSubmatch":   {class: ClPure},
+	"(*regexp.Regexp).ReplaceAllStringFunc": {class: ClCallback},
+	"regexp.Compile":                        {class: ClPure},
+	"regexp.MustCompile":                    {class: ClPure},
+	"(encoding/json.Number).Float64":        {class: ClPure},
+	"encoding/json.Unmarshal":               {class: ClWriteArg, write: []int{1}},
+	"strconv.Atoi":                          {class: ClPure},
+	"strconv.ParseFloat":                    {class: ClPure},
+	"strconv.ParseInt":                      {class: ClPure},
+	"strconv.Quote":                         {class: ClPure},
+	"(sort.StringSlice).Sort":               {class: ClWriteArg, write: []int{0}},
+	"(*sort.StringSlice).Sort":              {class: ClWriteArg, write: []int{0}},
+	"sort.Strings":                          {class: ClWriteArg, write: []int{0}},
+	"sort.Ints":                             {class: ClWriteArg, write: []int{0}},
+	"reflect.ValueOf":                       {class: ClPassThru},
+	"reflect.Indirect":                      {class: ClPassThru},
+	"(reflect.Value).Elem":                  {class: ClPassThru},
+	"(reflect.Value).Index":                 {class: ClPassThru},
+	"(reflect.Value).MapIndex":              {class: ClPassThru},
+	"(reflect.Value).Field":                 {class: ClPassThru},
+	"(reflect.Value).Interface":             {class: ClPassThru},
+	"(reflect.Value).Type":                  {class: ClPure},
+	"(reflect.Value).Kind":                  {class: ClPure},
+	"(reflect.Value).IsNil":                 {class: ClPure},
+	"(reflect.Value).IsValid":               {class: ClPure},
+	"(reflect.Value).IsZero":                {class: ClPure},
+	"(reflect.Value).Pointer":               {class: ClPure},
+	"(reflect.Value).UnsafePointer":         {class: ClPure},
+	"(reflect.Value).Len":                   {class: ClPure},
+	"(reflect.Value).NumField":              {class: ClPure},
+	"(reflect.Value).String":                {class: ClPure},
+	"(reflect.Value).Int":                   {class: ClPure},
+	"(reflect.Value).Float":                 {class: ClPure},
+	"(reflect.Value).Bool":                  {class: ClPure},
+	"(reflect.Value).CanInterface":          {class: ClPure},
+	"(*reflect.rtype).Kind":                 {class: ClPure},
+	"(*reflect.rtype).Name":                 {class: ClPure},
+	"(*reflect.rtype).Elem":                 {class: ClPure},
+	"(*sync.Mutex).Lock":                    {class: ClLockUnlck},
+	"(*sync.Mutex).Unlock":                  {class: ClLockUnlck},
+	"(*sync.Pool).Get":                      {class: ClPoolGet},
+	"(*sync.Pool).Put":                      {class: ClPoolPut},
+	"fmt.Sprintf":                           {class: ClPure},
+	"fmt.Sprint":                            {class: ClPure},
+	"fmt.Errorf":                            {class: ClPure},
+	"errors.New":                            {class: ClPure},
+	"strings.Contains":                      {class: ClPure},
+	"strings.HasPrefix":                     {class: ClPure},
+	"(*bytes.Buffer).String":                {class: ClPure},
+	"unicode/utf8.RuneCountInString":        {class: ClPure},
+	"(error).Error":                         {class: ClPure},
+	"(*strings.Builder).String":             {class: ClPure},
+	"(*strings.Builder).WriteString":        {class: ClWriteArg, write: []int{0}},
+	"(*strings.Builder).WriteByte":          {class: ClWriteArg, write: []int{0}},
+	"(*strings.Builder).WriteRune":          {class: ClWriteArg, write: []int{0}},
+	"(*bytes.Buffer).WriteString":           {class: ClWriteArg, write: []int{0}},
+	"(*bytes.Buffer).WriteByte":             {class: ClWriteArg, write: []int{0}},
+	"(*bytes.Buffer).Write":                 {class: ClWriteArg, write: []int{0}},
 }
 
 func (a *Analysis) genCall(fn *ssa.Function, ins ssa.CallInstruction, c *ssa.CallCommon, res ssa.Value) {
